@@ -499,6 +499,27 @@ def lifecycle():
     bb = fn_body(pm, "process_inproc_binding_request_event")
     emit_nat("inprocRefusalKeepsBinder", 1 if re.search(
         r"validate_socket_compatibility\([^)]*\)\s*\{.{0,400}?reply_tx\.send\(Err\(e\)\);\s*return Ok\(\(\)\);", bb, re.S) else 0)
+    # session batch assembly: is the pipe tapped only when the carry-over is empty?
+    act = strip_comments(src("core/src/sessionx/actor.rs"))
+    emit_nat("topUpOnlyIfCarryEmpty", 1 if re.search(
+        r"let start_len = outgoing_batch\.len\(\);\s*if core_carryover\.is_empty\(\) && start_len < max_count && total_bytes < logical_max_bytes", act) else 0)
+    emit_nat("pipeBranchNeedsEmptyCarry", 1 if re.search(
+        r"recv_from_core\(\)\.await \},\s*if self\.current_phase == ConnectionPhaseX::Operational\s*&& self\.core_pipe_manager\.is_attached\(\)\s*&& core_carryover\.is_empty\(\)", act) else 0)
+    emit_nat("overflowGoesToCarry", len(re.findall(r"core_carryover\.extend\(outgoing_batch\.drain\(i\.\.\)\);", act)))
+    emit_nat("carryBreakPushesFront", 1 if re.search(r"core_carryover\.push_front\(next_msg\);\s*break;", act) else 0)
+    # REQ/REP: is the state transition claimed under the lock that checks it?
+    rq = strip_comments(src("core/src/socket/req_socket.rs"))
+    bsend = fn_body("core/src/socket/req_socket.rs", "send", within="impl ISocket for ReqSocket")
+    emit_nat("reqSendClaims", 1 if re.search(
+        r"let mut current_state_guard = self\.state\.lock\(\);\s*match \*current_state_guard \{\s*ReqState::ReadyToSend => \{\s*\*current_state_guard = ReqState::Sending;", bsend) else 0)
+    emit_nat("reqSendRollsBack", 1 if re.search(r"impl Drop for ReqSendClaim.*?ReqState::Sending.*?ReqState::ReadyToSend", rq, re.S) else 0)
+    # a FAILING receive finishes only its own exchange; a receive that RETURNS a reply finishes the current one
+    emit_nat("reqExchangeGuard", len(re.findall(r"exchange == my_exchange", rq)))
+    emit_nat("reqRecvOkFinishesCurrent", len(re.findall(r"ReqState::ExpectingReply \{ exchange, \.\. \} => \w+\.is_ok\(\) \|\| exchange == my_exchange", rq)))
+    rp = strip_comments(src("core/src/socket/rep_socket.rs"))
+    emit_nat("repRecvClaims", len(re.findall(
+        r"RepState::ReadyToReceive => \{\s*\*guard = RepState::Receiving;", rp)))
+    emit_nat("repRecvRollsBack", 1 if re.search(r"impl Drop for RepRecvClaim.*?RepState::Receiving.*?RepState::ReadyToReceive", rp, re.S) else 0)
     cl = "core/src/socket/core/command_loop.rs"
     emit_nat("busLagShutsSocketDown", 1 if re.search(r"RecvError::Lagged\(n\)\)\s*=>\s*\{.*?initiate_core_shutdown", strip_comments(src(cl)), re.S) else 0)
 
